@@ -9,7 +9,7 @@
 From Coq Require Import List NArith ZArith Bool.
 From Abasic Require Import Model.Bytes Model.Num Model.Token Model.Data Model.Lexer Gen.Tables
      Model.State Model.Eval Model.Interp Proofs.Monad Proofs.Frames Proofs.StoreProofs Proofs.Safety
-     Proofs.FlagsSim Proofs.TurnProofs.
+     Proofs.FlagsSim Proofs.TurnProofs Proofs.Termination.
 Import ListNotations.
 Local Open Scope nat_scope.
 
@@ -47,12 +47,30 @@ Theorem C09_expressions_silent : forall fuel n s,
   exists new, outputs (snd (evaluate_expression fuel n s)) = outputs s ++ new /\ Forall is_warning new.
 Proof. intros fuel n s. exact (rq_evaluate_expression fuel n s). Qed.
 
-(* "Always hands control back": every host call of the model is a total
-   function; the only non-answer is the model's own OutOfFuel, whose absence on
-   generated programs is checked by the correspondence (the implementation's
-   calls are run under a time limit).  "Work bounded by the length of the line":
-   validated (the model's cursor-read counter must EQUAL the implementation's
-   hook counter on every call, and the bound is checked on both), not proved. *)
+(* "Always hands control back".  The interpreter's loops (operator tiers,
+   subscript lists, PRINT items, READ targets, the IF scan, DEF parameters and
+   body) and its recursion (parentheses, user-function bodies, nested IFs) are
+   modelled with fuel; that a host call returns is, in the model, that the fuel
+   suffices.  From EVERY well-formed state (every reachable state is: C01_inv),
+   with fuel above a bound that depends only on the longest token list the
+   cursor can be on (stored lines, immediate line, the submitted line) and the
+   nesting cap, the call never answers OutOfFuel (Proofs/Termination.v: an
+   evaluator never moves the cursor backwards and returns to its line after a
+   user-function call; a successful expression consumes a token; every
+   continuing loop iteration consumes a token; recursion costs one unit of
+   fuel per level of the shared nesting counter).  provide_input and
+   break_at_current_location contain no loop at all. *)
+Theorem C09_continue_returns : forall fuel s,
+  wf s -> call_bound s < fuel -> fst (continue_evaluating fuel s) <> OutOfFuel.
+Proof. exact continue_returns. Qed.
+
+Theorem C09_start_returns : forall fuel line s,
+  wf s -> start_bound s line < fuel -> fst (start_evaluating fuel line s) <> OutOfFuel.
+Proof. exact start_returns. Qed.
+
+(* "Work bounded by the length of the line": validated (the model's
+   cursor-read counter must EQUAL the implementation's hook counter on every
+   call, and the bound is checked on both), not proved. *)
 
 (* non-vacuity: `10 PRINT "A":PRINT "B"` under TRACE — three calls, one trace
    record each (the colon is its own turn), Print records 1, 0, 1; a never-ending
@@ -74,3 +92,5 @@ Print Assumptions C09_continue.
 Print Assumptions C09_start.
 Print Assumptions C09_turn.
 Print Assumptions C09_expressions_silent.
+Print Assumptions C09_continue_returns.
+Print Assumptions C09_start_returns.
